@@ -18,7 +18,7 @@ Definition lexec (me : Z) (i : info) (v : visit) : info * list visit :=
       else if orank <? irank i then (i, s0 ++ [Walk cb op oi (iparent i) me (irank i)])
       else if irank i =? orank then
         if iparent i =? me then
-          if me <? op then ({| irank := irank i; iparent := op |}, s0 ++ (if cb then [] else [Resolve op me (irank i)]))
+          if me <? op then ({| irank := irank i; iparent := op |}, s0 ++ (match cb with Some _ => [] | None => [Resolve op me (irank i)] end))
           else (i, s0 ++ [Walk cb op oi (iparent i) me (irank i)])
         else (i, s0 ++ [Walk cb (iparent i) me op oi orank])
       else
@@ -29,6 +29,17 @@ Definition lexec (me : Z) (i : info) (v : visit) : info * list visit :=
       if mrank <? irank i then (i, [])
       else if iparent i =? me then ({| irank := mrank + 1; iparent := me |}, [])
       else (i, [UpdParent mitem (iparent i)])
+  end.
+
+(* the callback a visit fires (async_union_and_execute: where the walk attaches a root), from the entry alone *)
+Definition lcb (me : Z) (i : info) (v : visit) : list (Z * Z) :=
+  match v with
+  | Walk (Some ab) _ child op oi orank =>
+      if (iparent i =? op) || (iparent i =? oi) then []
+      else if orank <? irank i then []
+      else if irank i =? orank then (if iparent i =? me then (if me <? op then [ab] else []) else [])
+      else (if iparent i =? me then [ab] else [])
+  | _ => []
   end.
 
 Definition target (v : visit) : Z := match v with Walk _ me _ _ _ _ | UpdParent me _ | Resolve me _ _ => me end.
@@ -89,7 +100,7 @@ Definition rec := (Z * Z * visit * Z * Z)%type.
 
 Definition visit_eqb (a b : visit) : bool :=
   match a, b with
-  | Walk b m c o oi r, Walk b' m' c' o' oi' r' => Bool.eqb b b' && (m =? m') && (c =? c') && (o =? o') && (oi =? oi') && (r =? r')
+  | Walk b m c o oi r, Walk b' m' c' o' oi' r' => (match b, b' with None, None => true | Some (x, y), Some (x', y') => (x =? x') && (y =? y') | _, _ => false end) && (m =? m') && (c =? c') && (o =? o') && (oi =? oi') && (r =? r')
   | UpdParent m p, UpdParent m' p' => (m =? m') && (p =? p')
   | Resolve m x r, Resolve m' x' r' => (m =? m') && (x =? x') && (r =? r')
   | _, _ => false
@@ -101,6 +112,11 @@ Definition rec_ok (r : rec) : bool :=
   (irank i' =? rk') && (iparent i' =? par').
 Definition rec_sends (r : rec) : list visit :=
   let '(rk, par, v, _, _) := r in snd (lexec (target v) {| irank := rk; iparent := par |} v).
+Definition rec_cbs (r : rec) : list (Z * Z) :=
+  let '(rk, par, v, _, _) := r in lcb (target v) {| irank := rk; iparent := par |} v.
+Definition pair_eqb (a b : Z * Z) : bool := (fst a =? fst b) && (snd a =? snd b).
+Definition same_pairs (a b : list (Z * Z)) : bool :=
+  Nat.eqb (length a) (length b) && forallb (fun v => Nat.eqb (length (filter (pair_eqb v) a)) (length (filter (pair_eqb v) b))) a.
 
 Definition count (v : visit) (l : list visit) : nat := length (filter (visit_eqb v) l).
 (* same multiset: every element of either list occurs equally often in both *)
@@ -111,12 +127,14 @@ Fixpoint first_bad (i : nat) (l : list rec) : option nat :=
   match l with [] => None | r :: t => if rec_ok r then first_bad (S i) t else Some i end.
 
 (* an epoch: the unions issued (as initial walks) and the recorded visits *)
-Definition epoch_ok (issued : list (bool * (Z * Z))) (recs : list rec) : option nat * bool :=
-  (first_bad 0 recs, same_multiset (map (fun r => let '(_, _, v, _, _) := r in v) recs) (unionsb issued ++ flat_map rec_sends recs)).
+(* also: the callbacks the implementation reported in the epoch are the ones the model fires *)
+Definition epoch_ok (issued : list (bool * (Z * Z))) (recs : list rec) (cbs : list (Z * Z)) : option nat * bool * bool :=
+  (first_bad 0 recs, same_multiset (map (fun r => let '(_, _, v, _, _) := r in v) recs) (unionsb issued ++ flat_map rec_sends recs),
+   same_pairs cbs (flat_map rec_cbs recs)).
 
 Example epoch_ok_example :
-  epoch_ok [(false, (1, 2))] [(0, 1, Walk false 1 1 2 2 (-1), 0, 1); (0, 2, Walk false 2 2 1 1 0, 0, 2); (0, 1, Walk false 1 1 2 2 0, 0, 2); (0, 2, Resolve 2 1 0, 1, 2)]
-  = (None, true) /\
-  epoch_ok [(true, (1, 2))] [(0, 1, Walk true 1 1 2 2 (-1), 0, 1); (0, 2, Walk true 2 2 1 1 0, 0, 2); (0, 1, Walk true 1 1 2 2 0, 0, 2)]
-  = (None, true).
+  epoch_ok [(false, (1, 2))] [(0, 1, Walk None 1 1 2 2 (-1), 0, 1); (0, 2, Walk None 2 2 1 1 0, 0, 2); (0, 1, Walk None 1 1 2 2 0, 0, 2); (0, 2, Resolve 2 1 0, 1, 2)] []
+  = (None, true, true) /\
+  epoch_ok [(true, (1, 2))] [(0, 1, Walk (Some (1, 2)) 1 1 2 2 (-1), 0, 1); (0, 2, Walk (Some (1, 2)) 2 2 1 1 0, 0, 2); (0, 1, Walk (Some (1, 2)) 1 1 2 2 0, 0, 2)] [(1, 2)]
+  = (None, true, true).
 Proof. vm_compute. split; reflexivity. Qed.
